@@ -86,11 +86,11 @@ func (p *Validator) ValidateReader(r io.Reader) error {
 		} else {
 			err = p.validateBuffer(buf, eof)
 		}
-		skip = 0
 		if err != nil {
 			return err
 		}
-		p.noff -= len(buf)
+		p.noff -= len(buf) - skip
+		skip = 0
 		if eof {
 			break
 		}
